@@ -436,7 +436,7 @@ class Lexer:
         while self.pos < self.length:
             ch = self._current()
 
-            if ch == "\\" and self.pos + 1 < self.length:
+            if ch == "\\" and self._peek() not in ("", "\n"):
                 # Escape sequence - include both characters
                 pattern.append(self._advance())
                 pattern.append(self._advance())
@@ -454,6 +454,9 @@ class Lexer:
                 raise JSSyntaxError("Unterminated regex literal", line, column)
             else:
                 pattern.append(self._advance())
+        else:
+            # End of input before the closing /
+            raise JSSyntaxError("Unterminated regex literal", line, column)
 
         # Read flags
         flags = []
